@@ -992,6 +992,46 @@ def r01_12(ctx, p):
                               f"overwriting a key leaves part of the old value behind (read back differs from the last write)",
                       how=f"both arms write {sorted(cols['insert'])}", where=where(f, t_ast))
     ctx.floor("R01.12", "upsert_sites", n, 5)
+    # every row of a table with a (owner, key) uniqueness constraint that a setter inserts sits in the `existing row is None` arm of a
+    # look-up of the same table: a bare insert makes the second write of a key fail on the constraint (and the failure is swallowed as a
+    # "timing issue"), i.e. the first value stays while every other backend returns the last one
+    mmod = p.module("optuna.storages._rdb.models")
+    keyed = set()
+    for c in mmod.classes.values():
+        for st in c.node.body:
+            tg = st.targets[0] if isinstance(st, ast.Assign) else (st.target if isinstance(st, ast.AnnAssign) else None)
+            if tg is not None and norm(tg) == "__table_args__" and st.value is not None and "UniqueConstraint" in norm(st.value):
+                keyed.add(c.name)
+    ctx.require(len(keyed) >= 8, f"R01.12: unique-keyed model classes not recognised ({sorted(keyed)})")
+    n_ins = 0
+    for mname, f in sorted(rdb.methods.items()):
+        pm = parent_map(f.node)
+        fresh_owner = any(isinstance(c, ast.Call) and (dotted(c.func) or "") in ("models.StudyModel", "models.TrialModel") for c in own_nodes(f.node))
+        for c in own_nodes(f.node):
+            if not (isinstance(c, ast.Call) and (dotted(c.func) or "").startswith("models.") and (dotted(c.func) or "").split(".")[-1] in keyed):
+                continue
+            n_ins += 1
+            if fresh_owner:
+                ctx.ok("R01.12", f.short, f"keyed-insert:{dotted(c.func)}", how="rows of an owner created in the same call: no earlier row can exist", nontrivial=False)
+                continue
+            model = dotted(c.func).split(".")[-1]
+            guarded = False
+            for a in ancestors(c, pm):
+                if isinstance(a, ast.If):
+                    at = cmp_atom(a.test)
+                    if at and at[2] == "None" and at[1] in (ast.Is, ast.IsNot):
+                        arm = a.body if at[1] is ast.Is else a.orelse
+                        in_arm = any(c is y for s_ in arm for y in ast.walk(s_))
+                        looked_up = any(isinstance(s_, ast.Assign) and norm(s_.targets[0]) == at[0] and isinstance(s_.value, ast.Call) and model in norm(s_.value.func)
+                                        for s_ in own_nodes(f.node))
+                        if in_arm and looked_up:
+                            guarded = True
+            ctx.check(guarded, "R01.12", f.short, f"keyed-insert-has-update-arm:{model}",
+                      message=f"RDBStorage.{mname} inserts a {model} row without first looking the key up: the second write of the same key violates the table's "
+                              f"UniqueConstraint, the IntegrityError is swallowed by the session scope, and the first value stays - in-memory and journal return "
+                              f"the last one (writes do not overwrite by key)",
+                      how="constructor inside the `<looked-up row> is None` arm; the other arm updates the row", where=where(f, c))
+    ctx.floor("R01.12", "keyed_insert_sites", n_ins, 6)
 
 
 # ------------------------------------------------------------------------------------------------
